@@ -18,9 +18,10 @@ PIPE_BUF_BYTES = 65536          # Linux default pipe capacity
 BYTE_CAP = 3 * 1024 * 1024      # per producer, keeps a case well under 1 s
 _PAT = bytes(range(251)) * 2
 
-PRODUCERS_DEADLINE = 30.0       # s, for all producers to finish
-STALL_DEADLINE = 20.0           # s without the consumers finishing, after
-#                                 every producer has finished and flushed
+PRODUCERS_DEADLINE = 30.0       # s without any consumer receiving anything
+#                                 while producers are still busy
+STALL_DEADLINE = 20.0           # s without any consumer receiving anything,
+#                                 after every producer has finished and flushed
 JOIN_DEADLINE = 20.0            # s for join() after every task_done happened
 
 
@@ -127,8 +128,8 @@ def consume(q, case, k, prog_w, counters=None):
                         rep['empty_hits'] += 1
             else:
                 item = q.get()
+            os.write(prog_w, b'.')       # progress; strictly before task_done
             if kind == 'JQ':
-                os.write(prog_w, b'.')       # strictly before task_done
                 q.task_done()
             if item is None:
                 rep['sentinels'] += 1
@@ -284,39 +285,60 @@ def arena_main(case, tmpdir):
                     return True
         return False
 
-    def wait_for(threads, procs, deadline):
+    prog = {'n': 0, 't': time.monotonic(), 'lock': threading.Lock()}
+
+    def progress():
+        """items received so far by all consumers (one byte each on the
+        progress pipe); remembers when the count last moved"""
+        with prog['lock']:
+            k = _drain_nonblocking(prog_r)
+            if k:
+                prog['n'] += k
+                prog['t'] = time.monotonic()
+            return prog['n']
+
+    def wait_for(threads, procs, patience):
         """'ok' when all have finished, 'aborted' as soon as any party has
-        reported an exception (no point in waiting for the rest), 'timeout'"""
+        reported an exception (no point in waiting for the rest), 'timeout'
+        when no consumer has received anything for ``patience`` seconds"""
+        prog['t'] = time.monotonic()
         while True:
             if not (any(t.is_alive() for t in threads.values()) or
                     any(pr.exitcode is None for pr, _ in procs.values())):
                 return 'ok'
             if party_failed():
                 return 'aborted'
-            if time.monotonic() > deadline:
+            progress()
+            if time.monotonic() - prog['t'] > patience:
                 return 'timeout'
             time.sleep(0.01)
 
     # 1. all producers finish (a process producer's exit implies its feeder
     #    thread has flushed everything into the pipe)
-    how = wait_for(pthreads, pprocs, time.monotonic() + PRODUCERS_DEADLINE)
+    how = wait_for(pthreads, pprocs, PRODUCERS_DEADLINE)
     if how != 'ok':
         res['phase'] = 'aborted' if how == 'aborted' else 'producers_stuck'
         return collect()
 
     # 2. one sentinel per consumer, behind every item
-    t_prod_done = time.monotonic()
-    try:
-        for _ in cons:
-            if kind == 'SQ':
-                q.put(None)
-            else:
-                q.put(None, True, STALL_DEADLINE)
-            if counters is not None:
-                counters.put_returned()
-    except Full:
-        res['phase'] = 'aborted' if party_failed() else 'stalled'
-        return collect()
+    prog['t'] = time.monotonic()
+    for _ in cons:
+        if kind == 'SQ':
+            q.put(None)
+        else:
+            while True:
+                try:
+                    q.put(None, True, 0.5)
+                    break
+                except Full:
+                    progress()
+                    if party_failed() or \
+                            time.monotonic() - prog['t'] > STALL_DEADLINE:
+                        res['phase'] = ('aborted' if party_failed()
+                                        else 'stalled')
+                        return collect()
+        if counters is not None:
+            counters.put_returned()
 
     # 3. JoinableQueue: join() must return exactly when everything is done
     jstate = {}
@@ -324,12 +346,12 @@ def arena_main(case, tmpdir):
     if kind == 'JQ':
         def jprobe():
             q.join()
-            jstate['progress_at_return'] = _drain_nonblocking(prog_r)
+            jstate['progress_at_return'] = progress()
         jthread = threading.Thread(target=jprobe, daemon=True)
         jthread.start()
 
     # 4. consumers finish
-    how = wait_for(cthreads, cprocs, t_prod_done + STALL_DEADLINE)
+    how = wait_for(cthreads, cprocs, STALL_DEADLINE)
     if how != 'ok':
         res['phase'] = 'aborted' if how == 'aborted' else 'stalled'
         return collect()
